@@ -434,7 +434,15 @@ class MarkdownNormalizer(Renderer):
 
         # Preserve code content without reformatting.
         code_child = cast(inline.RawText, element.children[0])
-        code_content = code_child.children.rstrip("\n")
+        # Only LF ends a code line. Blank lines at the end of a fenced block are part of its
+        # content (only the newline that ends the last line goes); an indented block has none.
+        if isinstance(element, block.FencedCode):
+            code_lines = code_child.children.split("\n")
+            if code_lines[-1] == "":
+                code_lines.pop()
+        else:
+            code_lines = code_child.children.rstrip("\n").split("\n")
+        code_content = "\n".join(code_lines)
         lang = element.lang if isinstance(element, block.FencedCode) else ""
         extra = element.extra if isinstance(element, block.FencedCode) else ""
         extra_text = f" {extra}" if extra else ""
@@ -460,7 +468,7 @@ class MarkdownNormalizer(Renderer):
         # Don't add prefix to empty lines to avoid trailing whitespace.
         # Use rstrip() to preserve structural prefixes like ">" for blockquotes.
         empty_line_prefix = self._second_prefix.rstrip()
-        for line in code_content.splitlines():
+        for line in code_lines:
             if line:
                 lines.append(f"{self._second_prefix}{line}")
             else:
